@@ -128,6 +128,8 @@ def conf_fns():
     # std::find_if(first, last, lambda): the lambda argument is not translated here; it is extracted as find_param_pred
     # (it captures `name`, the enclosing function's parameter) and called by the stub
     c['calls'] = CALLS + [(r'^find_if\|', 'nv_find_if_param({0}, {1}, name)'), (r'^operator==\|.*basic_string_view', '({0}.id == {1}.id)'),
+                          (r'^operator!=\|.*basic_string_view', '({0}.id != {1}.id)'),
+                          (r'^operator!=\|.*__normal_iterator<\s*nano::parameter_t \*', '({0} != {1})'),
                           (r'^operator==\|.*__normal_iterator<\s*nano::parameter_t \*', '({0} == {1})'),
                           (r'^operator\*\|.*__normal_iterator<\s*nano::parameter_t', '(*{0})'),
                           (r'^find_param\|nano::parameter_t \*\(', 'find_param!^'), (r'^find_param\|const nano::parameter_t \*\(', 'find_param_c!^')]
@@ -140,6 +142,8 @@ def conf_fns():
         'find_param': Fn('find_param', CONF, 'find_param', select=nc, **c),
         'find_param_c': Fn('find_param_c', CONF, 'find_param', select=cq, **c),
         'pred': Fn('find_param_pred', CONF, 'find_param', select=nc, lambda_index=0, extra_params=['struct nv_str name'], **c),
+        # the const overload has its own (textually identical) lambda: the *_c targets use that one
+        'pred_c': Fn('find_param_pred', CONF, 'find_param', select=cq, lambda_index=0, extra_params=['struct nv_str name'], **c),
         'name': Fn('parameter_name', DRV, 'name', flt='nano::parameter_t::name', self_struct='struct nv_parameter', **c),
         'register': Fn('configurable_register_parameter', CONF, 'register_parameter', flt='nano::configurable_t::register_parameter', self_struct=S, **c),
         'parameter': Fn('configurable_parameter', CONF, 'parameter', flt='nano::configurable_t::parameter', select=mnc, self_struct=S, **c),
@@ -209,12 +213,128 @@ def build(tier):
     for top, deps in [('find_param', []), ('find_param_c', []), ('parameter', ['find_param']), ('parameter_c', ['find_param_c']),
                       ('parameter_if', ['find_param']), ('parameter_if_c', ['find_param_c']), ('register', ['parameter_if', 'find_param'])]:
         f = conf_fns()
-        fns = [f[top]] + [f[d] for d in deps] + [f['pred'], f['name']]
+        fns = [f[top]] + [f[d] for d in deps] + [f['pred_c' if top.endswith('_c') else 'pred'], f['name']]
         targets.append(T(fns[0].cname, fns, solver=None))
     return {
         'targets': targets, 'vcs': [],
-        'decided': [],
-        'not_decided': [],
-        'assumptions': [],
-        'trusted': [],
+        'decided': [
+            '::check<int64|double>: returns min <= v for LE_t and min < v for LT_t (which variant index is LE_t is read from clang\'s type)',
+            '::update(range_t / pair_range_t) for all 12 instantiations of src/parameter.cpp: with c = (tscalar)x, c in domain <=> accepted; '
+            'accepted => stored value(s) == c, nothing thrown, returns the record; rejected => throws and BOTH halves / the value are unchanged; '
+            'NaN / inf rejected for real parameters; min, max and the comparison flags never change; the domain predicate is established by every '
+            'non-throwing update and preserved by every update',
+            '::update(enum_t): accepted <=> the string is in the domain list (witness index / ghost index), rejected => throws, value unchanged',
+            '::update(storage, number | tuple) and parameter_t::seti / setd / operator=(tuple<int32|int64|double>): the active alternative decides; '
+            'integer / real (pair) parameters behave as above, every other kind (empty, enum, string, pair <-> scalar) throws and nothing changes; '
+            'the alternative never changes',
+            'parameter_t::operator=(string): enum -> domain check, string -> stored, integer / real (pair) -> as the numeric assignment of the parsed '
+            'number(s); unparsable => throws, nothing changes; empty parameter throws',
+            'the six parameter_t constructors: a constructed parameter holds exactly the given record / string, of the given kind, and the record '
+            'satisfies its domain predicate (out-of-domain default <=> the constructor throws)',
+            'parameter_t::value<int64|double>(), value_pair<int64|double>(), value<string>(): return the stored value converted to the requested kind; '
+            'reads of a parameter of another kind throw; nothing is modified',
+            '::find_param (both overloads), configurable_t::parameter / parameter_if (both overloads): returns the first parameter with that name; '
+            'absent => null (optional) / throws (mandatory); register_parameter: duplicate name => throws and the list is unchanged, else the list '
+            'grows by exactly the given parameter',
+        ],
+        'not_decided': [
+            'the double -> int64 conversion in ::update(range_t<int64>, double) / ::update(pair_range_t<int64>, double, double) for x == -2^63 exactly '
+            '(defined in C++, rejected by cbmc\'s conversion check)',
+            'parameter_t::operator=(tenum), value<tenum>(), make_enum_ (enum <-> string tables: enum_string / from_string)',
+            'make_scalar_ / make_integer_ ... (header factories: casts of min / value / max, then the constructors proved here)',
+            'which strings std::stoll / std::stod accept and what ::split_pair returns (uninterpreted; DESIGN C19 X)',
+            'parameter_t::read / write (serialisation; read() stores the record from the stream WITHOUT the domain check -- see final report), '
+            'operator==, clone equality and factory ids (DESIGN C19 X)',
+        ],
+        'assumptions': [
+            'std::variant: index() identifies the active alternative; std::visit(overloaded{...}, v) calls the overload chosen by overload resolution '
+            'for the active alternative (the choice is taken from clang: exact-parameter lambdas by type, the generic lambda for exactly the '
+            'alternatives it was instantiated with a body for) and throws bad_variant_access when valueless; holds_alternative / get_if / the '
+            'converting constructor select the alternative of exactly that type (engine/hooks.py variant hooks)',
+            'LEorLT (two empty alternatives) is never valueless: index in {0, 1}',
+            'std::isfinite(double) is true exactly for non-NaN, non-infinite values',
+            'std::find returns the first position equal to the value, else last; std::find_if the first position satisfying the (real, extracted) '
+            'predicate, else last (assumed contracts at a ghost index)',
+            'std::vector::emplace_back appends one element equal to its argument and keeps the others (reallocation not modelled)',
+            'std::string / std::string_view are values of an uninterpreted sort with equality (ids); std::move of a string or record is a copy of the value',
+            'std::stoll / std::stod / ::split_pair are deterministic functions of the string; a string that does not parse throws',
+            'value<int64>() / value_pair<int64>() on a REAL parameter: the stored double is representable as int64 (the reader\'s own cast; a real '
+            'parameter\'s domain may exceed it -- required as a precondition of those two readers only)',
+            'parameter lists have at most 10^6 entries and enum domains at most 10^6 strings (only to keep n * sizeof inside size_t)',
+        ],
+        'trusted': ['the C models of the records (specs/C19/param.h) have the member names and scalar types of include/nano/parameter.h '
+                    '(a wrong member name is an extraction error, a wrong alternative order a C type error)'],
     }
+
+
+# ----------------------------------------------------------------------------- native replay
+REPLAY_KIND = {'update_ir_i64': ('ir', 'i64'), 'update_ir_ll': ('ir', 'str'), 'update_ir_f64': ('ir', 'f64'),
+               'update_fr_f64': ('fr', 'f64'), 'update_fr_i64': ('fr', 'i64'),
+               'update_ip_i64': ('ip', 'i64'), 'update_ip_ll': ('ip', 'str'), 'update_ip_i32': ('ip', 'i32'), 'update_ip_f64': ('ip', 'f64'),
+               'update_fp_f64': ('fp', 'f64'), 'update_fp_i64': ('fp', 'i64'), 'update_fp_i32': ('fp', 'i32')}
+
+
+def _num(v, integer):
+    import re
+    if isinstance(v, float):
+        return repr(v) if integer is False else str(int(v)) if v == v and abs(v) < 2 ** 63 else repr(v)
+    s = str(v).strip()
+    if integer:
+        m = re.match(r'^[-+]?\d+', s)
+        return m.group(0) if m else None
+    s = re.sub(r'[fFlL]+$', '', s)
+    return {'+NaN': 'nan', '-NaN': 'nan', 'NaN': 'nan', '+INFINITY': 'inf', '-INFINITY': '-inf', 'INFINITY': 'inf'}.get(s, s)
+
+
+def replay(rp):
+    """record-level counterexamples (::update on a range / pair record): the counterexample's domain and assigned
+    number(s) are driven through the public API of a real parameter_t (make_integer / make_scalar / ..., operator=)
+    and compared with the property's reference model; built with -fsanitize=float-cast-overflow so that an undefined
+    double -> int64 conversion is reported by the real code itself"""
+    import os
+    import replaylib
+    out = {'reproduced': False, 'runs': []}
+    kt = REPLAY_KIND.get(rp['target'])
+    if kt is None:
+        out['note'] = 'no native driver for this target: the replay file carries the verifier output only'
+        return out
+    kind, tv = kt
+    integer, pair = kind[0] == 'i', kind[1] == 'p'
+    exe = replaylib.build_header_only('replay/C19_replay.cpp', 'C19_replay',
+                                      extra=[os.path.join(replaylib.REPO, 'src', 'parameter.cpp'), '-fsanitize=float-cast-overflow'])
+    seen = set()
+    for fo in rp['failed_obligations']:
+        ce = fo.get('counterexample') or {}
+
+        def last(suffix):
+            hit = None
+            for k, v in ce.items():
+                if k.endswith(suffix):
+                    hit = v
+            return hit
+        mn, mx = _num(last('.m_min'), integer), _num(last('.m_max'), integer)
+        le = [last('.m_mincomp.index'), last('.m_maxcomp.index'), last('.m_valcomp.index')]
+        xs = [last('::value1_'), last('::value2_')] if pair else [last('::value_')]
+        if mn is None or mx is None or any(x is None for x in xs) or le[0] is None or le[1] is None or (pair and le[2] is None):
+            continue
+        xs = [_num(x, tv != 'f64') for x in xs]
+        flag = lambda i: '1' if str(i).strip() in ('0', '0u', '0U') else '0'     # index 0 = LE_t
+        args = [kind, tv, mn, flag(le[0]), flag(le[1]), mx] + ([flag(le[2])] if pair else []) + xs
+        if tuple(args) in seen:
+            continue
+        seen.add(tuple(args))
+        try:
+            rc, so, se = replaylib.run_driver(exe, args)
+        except Exception as e:
+            out['runs'].append({'error': repr(e)})
+            continue
+        if 'empty domain' in so and 'overflow' in fo['id']:
+            # the conversion precedes every domain check: the counterexample's (empty) domain is immaterial to it
+            args = [kind, tv, '0', '1', '1', '10'] + (['1'] if pair else []) + xs
+            out['runs'].append({'obligation': fo['id'], 'note': 'counterexample domain is empty; conversion replayed on the domain 0 <= v <= 10'})
+            rc, so, se = replaylib.run_driver(exe, args)
+        ub = [ln for ln in se.splitlines() if 'runtime error' in ln]
+        out['runs'].append({'obligation': fo['id'], 'args': args, 'exit': rc, 'output': so.strip(), 'sanitizer': ub[:2]})
+        if rc == 1 or ub:
+            out['reproduced'] = True
+    return out
